@@ -354,6 +354,12 @@ class Simulator(EventProducer, SimulatorInterface, Generic[TIME]):
             raise DSOLError("replication state not INITIALIZED or STARTED")
         if self._simulator_time >= self._replication.end_sim_time:
             raise DSOLError("cannot start: simulator_time > run length")
+        if not run_until_time >= self._simulator_time:
+            raise DSOLError("cannot run up to a time in the past")
+        if run_until_time > self._replication.end_sim_time:
+            # never run past the end of the replication
+            run_until_time = self._replication.end_sim_time
+            run_until_including = True
         self._run_until_time = run_until_time
         self._run_until_including = run_until_including
         self._run_state = RunState.STARTING
